@@ -268,9 +268,7 @@ func (c *Cluster) Canon(i int) string {
 func (c *Cluster) NoteChange(i int) bool {
 	// what readers of each key see (tombstones stripped)
 	r, p := c.State(i)
-	vr, vp := model.CloneDesc(r), model.ClonePDesc(p)
-	vr.RemoveTombstones(time.Time{})
-	vp.RemoveTombstones(time.Time{})
+	vr, vp := model.StripDesc(r), model.StripPDesc(p)
 	if c.lastVis[i] == nil {
 		c.lastVis[i] = map[string]string{}
 		c.VisChanges[i] = map[string]int{}
@@ -378,10 +376,25 @@ func (c *Cluster) Visible(i int) (string, error) {
 
 // VisibleOf renders a full state the way a reader must see it (tombstones stripped).
 func VisibleOf(r *ring.Desc, p *ring.PartitionRingDesc) string {
+	// what readers may see = the stored value without its removal markers, and nothing else missing;
+	// stripped here by hand (asking the library's RemoveTombstones would compare the code with itself)
 	r2 := model.CloneDesc(r)
-	r2.RemoveTombstones(time.Time{})
+	for id, in := range r2.Ingesters {
+		if in.State == ring.LEFT {
+			delete(r2.Ingesters, id)
+		}
+	}
 	p2 := model.ClonePDesc(p)
-	p2.RemoveTombstones(time.Time{})
+	for id, pd := range p2.Partitions {
+		if pd.State == ring.PartitionDeleted {
+			delete(p2.Partitions, id)
+		}
+	}
+	for id, o := range p2.Owners {
+		if o.State == ring.OwnerDeleted {
+			delete(p2.Owners, id)
+		}
+	}
 	return "ring[" + model.CanonDescN(r2) + "] pring[" + model.CanonPDescN(p2) + "]"
 }
 
